@@ -204,6 +204,13 @@ def gen_config(rng, desc, malformed_cfg=0.06):
             cfg["cluster"][g] = pick(rng, CLUSTER_POOL)
     if rng.random() < 0.15:
         cfg["top level key"] = {"a": "1"}
+    for c in desc["comps"]:
+        if c["name"].startswith("%"):
+            # identified through its default label only: no entry that applies to it may set one - an entry keyed by ANOTHER
+            # component's name applies to it too when that name happens to be this component's class name ("Source", "Converter")
+            for key in (c["name"], CLASSNAME[c["kind"]]):
+                if isinstance(cfg["node"].get(key), dict):
+                    cfg["node"][key].pop("label", None)
     r = rng.random()
     if r < malformed_cfg:            # a section the code needs is missing, or `label` clashes with a keyword argument
         what = rng.choice(["graph", "node", "edge", "cluster", "node.default", "cluster.default", "graph.rankdir",
